@@ -61,6 +61,35 @@ def _imports():
     return types.SimpleNamespace(**locals())
 
 
+def objkey(o):
+    """identity of a stateful object in the store / in the model: the vm name for its first image (the only kind the
+    synthetic graphs use), else <type>_<long suffix> as the state-control parameters spell it"""
+    if o.key == "images" and o.suffix == "image1":
+        return o.long_suffix.split("_", 1)[1]
+    return f"{o.key}_{o.long_suffix}"
+
+
+def suffix_key(typed_suffix):
+    """`images_image1_vm1` (as in check_state_images_image1_vm1) -> object key"""
+    typ, _, rest = typed_suffix.partition("_")
+    if typ == "images" and rest.startswith("image1_"):
+        return rest[len("image1_"):]
+    return typed_suffix
+
+
+def node_states(node, what):
+    """[(object key, value)] of `get_state` / `set_state` / `unset_mode` over the node's non-net objects, in object order"""
+    out = []
+    for o in node.objects:
+        if o.key == "nets":
+            continue
+        p = o.object_typed_params(node.params)
+        v = p.get(what)
+        if v:
+            out.append((objkey(o), v))
+    return out
+
+
 def node_name(cls, worker):
     """parser-shaped node name: <set>.<class>.vms.<vm>.v_<vm>.nets.<swarm>.<id>[.<vm2>...]"""
     restr = "normal.nongui" if cls.get("leaf") else "all"
@@ -178,6 +207,29 @@ class Run:
                 self.nodes[(cls["name"], wid)] = n
                 self.node_key[id(n)] = (cls["name"], wid)
                 order.append(n)
+        self.lazy = bool(spec.get("lazy"))
+        self.flat = {}
+        self.revealed = set()
+        if self.lazy:
+            # only the shared root and one flat node per selected (leaf) test exist up front; composite nodes are
+            # revealed by the stubbed `parse_paths_to_object_roots` (the real one needs the Cartesian parser)
+            shared_obj = m.TestObject("shared", m.param.Reparsable())
+            shared_obj._params_cache = m.Params({"name": "shared", "shortname": "shared"})
+            for cls in spec["classes"]:
+                if not cls.get("leaf"):
+                    continue
+                f = m.TestNode(cls.get("prefix", "1"), m.param.Reparsable())
+                f._params_cache = m.Params({"name": f"normal.nongui.{cls['name']}", "shortname": f"nongui.{cls['name']}",
+                                            "main_restrictions": MAIN_RESTR, "vms": " ".join(cls["objs"]), "nets": "",
+                                            "_name_map_file": {}})
+                f.descend_from_node(root, shared_obj)
+                self.flat[cls["name"]] = f
+                self.node_key[id(f)] = (cls["name"], "*flat*")
+            graph.new_nodes(list(self.flat.values()))
+            graph.new_nodes(root)
+            self.graph = graph
+            self.order = order
+            return graph
         # edges (in the class's declared parent order) and bridging (new node bridges with all old equivalent ones)
         for w in spec["workers"]:
             wid = w["id"]
@@ -205,7 +257,7 @@ class Run:
     # -- static ranks the model cannot compute (prefix_priority is not modelled) -----------
     def ranks(self):
         from functools import cmp_to_key
-        nodes = self.order + [self.root]
+        nodes = self.order + list(self.flat.values()) + [self.root]
         srt = sorted(nodes, key=cmp_to_key(lambda x, y: self.m.TestNode.prefix_priority(x.long_prefix, y.long_prefix)))
         rank, r, prev = {}, -1, None
         for n in srt:
@@ -216,6 +268,11 @@ class Run:
         return rank
 
     # -- seams ---------------------------------------------------------------------------
+    def class_name(self, node):
+        """name of the bridged class of a node (spec class name for synthetic graphs, else its index by bridged form)"""
+        k = self.node_key.get(id(node))
+        return k[0] if k else "c" + str(self.classes[node.bridged_form])
+
     def ev(self, *fields):
         self.events.append(list(fields))
         if len(self.events) > self.max_events:
@@ -230,28 +287,31 @@ class Run:
         m = self.m
         run = self
         self._saved = (m.TestRunner.run_test_task, m.node_mod.door, m.TestWorker.get_session,
-                       m.TestGraph.parse_node_from_object, asyncio.sleep)
+                       m.TestGraph.__dict__["parse_node_from_object"], asyncio.sleep)
+        self._saved_parse = m.TestGraph.parse_paths_to_object_roots
 
         async def run_test_task(runner, node):
             wid = node.params["nets"]
-            key = run.node_key.get(id(node)) or ("pre:" + run.cur_pre[wid], wid)
+            if id(node) in run.nidx:
+                key = (str(run.classes[node.bridged_form]), wid)
+            else:
+                key = ("pre:" + str(run.cur_pre[wid]), wid)
             k = run.exec_count.get(wid, 0)
             run.exec_count[wid] = k + 1
             sched = run.spec["schedule"].get(wid, [])
             dur, status = sched[k % len(sched)] if sched else (1, "PASS")
             uid = node.id_test.uid
-            gets = sorted((key2[len("get_state_images_"):], v) for key2, v in node.params.items()
-                          if key2.startswith("get_state_images_") and v)
-            locs = sorted((key2[len("get_location_image1_"):], v) for key2, v in node.params.items()
-                          if key2.startswith("get_location_image1_"))
+            gets = sorted(node_states(node, "get_state"))
+            locs = sorted((objkey(o), node.params.get(f"get_location_{o.long_suffix}")) for o in node.objects
+                          if o.key != "nets" and node.params.get(f"get_location_{o.long_suffix}"))
             access = []
             for v_id, v_worker in run.workers.items():
                 keys = [k2 for k2 in v_worker.params if k2.startswith("nets_")]
                 if keys and all(node.params.get(f"{k2}_{v_id}") == v_worker.params[k2] for k2 in keys):
                     access.append(v_id)
-            me = run.workers.get(run.worker_of_task())
-            nets_ok = me is not None and all(node.params.get(k2) == me.params.get(k2)
-                                             for k2 in ("nets", "nets_host", "nets_gateway", "nets_spawner"))
+            me = next((x for x in run.workers.values() if x.id == run.worker_of_task()), None)
+            nets_ok = me is not None and node.params.get("nets") == me.id and all(
+                node.params.get(k2) == me.params.get(k2) for k2 in ("nets_host", "nets_gateway", "nets_spawner"))
             run.ev(run.worker_of_task(), "start", key[0], uid, {
                 "node_worker": key[1], "nets": node.params.get("nets"), "host": node.params.get("nets_host"),
                 "gateway": node.params.get("nets_gateway"), "spawner": node.params.get("nets_spawner"),
@@ -262,10 +322,9 @@ class Run:
             if status is not None:
                 tid = type("Mock", (), {"uid": uid, "name": node.params["name"]})()
                 runner.job.result.tests.append({"name": tid, "status": status, "time_elapsed": str(dur), "logdir": "."})
-                if status == "PASS" or status == "WARN":
-                    for key2, v in node.params.items():
-                        if key2.startswith("set_state_images_") and v and not key2.endswith("on_error"):
-                            run.store.setdefault(wid, set()).add((key2[len("set_state_images_"):].split("_")[-1], v))
+                if (status == "PASS" or status == "WARN") and not key[0].startswith("pre:"):
+                    for ok, v in node_states(node, "set_state"):
+                        run.store.setdefault(wid, set()).add((ok, v))
             run.ev(run.worker_of_task(), "end", key[0], uid, {"status": status, "dur": dur})
 
         class Door:
@@ -291,10 +350,10 @@ class Run:
                 reqs = []
                 loc_key = {"check": "show_location", "get": "get_location", "unset": "unset_location"}[do]
                 for key2, v in sorted(p.items()):
-                    if key2.startswith(f"{do}_state_images_") and v:
-                        suffix = key2[len(f"{do}_state_images_"):]
-                        vm = suffix.split("_")[-1]
-                        reqs.append((vm, v, p.get(f"{loc_key}_images_{suffix}", "")))
+                    for typ in ("images", "vms", "nets"):
+                        if key2.startswith(f"{do}_state_{typ}_") and v and not key2.endswith("_on_error"):
+                            suffix = key2[len(f"{do}_state_"):]
+                            reqs.append((suffix_key(suffix), v, p.get(f"{loc_key}_{suffix}", "")))
                 ok = True
                 for vm, st, loc in reqs:
                     if do == "check":
@@ -317,10 +376,47 @@ class Run:
             p["name"] = "all.internal.stateless.noop.vms." + str(params["vms"]) + f".nets.{run.workers[wid].swarm_id}.{wid.split('.')[-1]}"
             p["shortname"] = "internal.stateless.noop." + wid
             n._params_cache = m.Params(p)
-            n.objects = [run.nets[wid]]
-            run.cur_pre[wid] = [c for c, w2 in run.node_key.values() if w2 == wid and
-                                run.nodes[(c, w2)].params.get("object_root") == params.get("object_root")][0]
+            root_node = [x for x in run.graph.nodes if not x.is_flat() and x.params.get("nets") == wid and
+                         x.params.get("object_root") == params.get("object_root")][0]
+            n.objects = list(root_node.objects)
+            run.cur_pre[wid] = run.classes[root_node.bridged_form]
             return n
+
+        def parse_paths_to_object_roots(graph_self, test_node, test_object, params=None):
+            """synthetic stand-in for the lazy Cartesian expansion of a flat node for one worker's net"""
+            wid = test_object.params["shortname"]
+            cname = run.node_key[id(test_node)][0]
+            classes = {c["name"]: c for c in run.spec["classes"]}
+            leaf = run.nodes.get((cname, wid))
+            if leaf is None:
+                test_node.incompatible_workers.add(test_object.long_suffix)
+                return
+            todo, new = [cname], []
+            while todo:
+                c = todo.pop()
+                n = run.nodes[(c, wid)]
+                if id(n) in run.revealed or n in new:
+                    continue
+                new.append(n)
+                todo.extend(p for p, _ in classes[c].get("parents", []))
+            for n in new:
+                for old in [x for x in run.order if id(x) in run.revealed]:
+                    if run.node_key[id(old)][0] == run.node_key[id(n)][0]:
+                        n.bridge_with_node(old)
+                run.revealed.add(id(n))
+                graph_self.new_nodes(n)
+            for n in new:
+                c = classes[run.node_key[id(n)][0]]
+                for pname, vm in c.get("parents", []):
+                    n.descend_from_node(run.nodes[(pname, wid)], run.imgobjs[vm])
+            if id(leaf) in {id(x) for x in new}:
+                leaf.descend_from_node(test_node, test_object)
+            roots = [n for n in new if n.is_object_root()]
+            run.ev(run.worker_of_task(), "parse", cname, wid, {"new": sorted(run.node_key[id(n)][0] for n in new)})
+            first = True
+            for n in new:
+                yield (roots if first else []), [], n
+                first = False
 
         async def vsleep_logged(delay, result=None):
             t = asyncio.current_task()
@@ -334,6 +430,8 @@ class Run:
         m.node_mod.door = Door
         m.TestWorker.get_session = lambda self: None
         m.TestGraph.parse_node_from_object = staticmethod(parse_node_from_object)
+        if getattr(self, "lazy", False):
+            m.TestGraph.parse_paths_to_object_roots = parse_paths_to_object_roots
         m.graph_mod.asyncio = types.SimpleNamespace(sleep=vsleep_logged)
         import avocado_i2n.plugins.runner as runner_mod
         self._runner_asyncio = runner_mod.asyncio
@@ -345,6 +443,7 @@ class Run:
         m = self.m
         (m.TestRunner.run_test_task, m.node_mod.door, m.TestWorker.get_session,
          m.TestGraph.parse_node_from_object, _) = self._saved
+        m.TestGraph.parse_paths_to_object_roots = self._saved_parse
         m.graph_mod.asyncio = asyncio
         self._runner_mod.asyncio = self._runner_asyncio
 
@@ -424,7 +523,8 @@ def spec_lines(run):
         for w in s.workers:
             widx[w.id] = len(widx)
             lines.append(f"worker {w.id} {w.swarm_id} {1 if len(w.restrs) else 0}")
-    nodes = list(run.graph.nodes)
+    lazy = getattr(run, "lazy", False)
+    nodes = (list(run.order) + list(run.flat.values()) + [run.root]) if lazy else list(run.graph.nodes)
     nidx = {id(n): i for i, n in enumerate(nodes)}
     classes = {}
     rank = run.ranks()
@@ -437,10 +537,10 @@ def spec_lines(run):
         flags = "".join([
             "f" if n.is_flat() else "", "s" if n.is_shared_root() else "", "o" if n.is_object_root() else "",
             "c" if len(n.cloned_nodes) > 0 else "", "d" if p.get("dry_run", "no") == "yes" else ""]) or "-"
-        vms = p.get("vms", "").split()
-        sets = [(vm, p.get(f"set_state_images_{vm}")) for vm in vms if p.get(f"set_state_images_{vm}")]
-        gets = [(vm, p.get(f"get_state_images_{vm}")) for vm in vms if p.get(f"get_state_images_{vm}")]
-        unset = [(vm, p.get(f"unset_mode_images_{vm}")) for vm in vms if p.get(f"unset_mode_images_{vm}")]
+        vms = [objkey(o) for o in n.objects if o.key != "nets"]
+        sets = node_states(n, "set_state")
+        gets = [(k, v) for k, v in node_states(n, "get_state") if v not in ("0root", "root", "0preinstall")]
+        unset = [(k, v) for k, v in node_states(n, "unset_mode") if v != p.get("unset_mode", "ri") or v[0] == "f"]
 
         def pl(l):
             return ",".join(f"{a}:{b}" for a, b in l) or "-"
@@ -449,12 +549,34 @@ def spec_lines(run):
             f"gets={pl(gets)} unset={pl(unset)} maxtries={p.get('max_tries', '-')} mct={p.get('max_concurrent_tries', '-')} "
             f"timeout={p.get('test_timeout', 3600)} shape={shape_of(p)} scope={','.join(p.get('pool_scope', '').split()) or '-'} "
             f"filter={p.get('pool_filter', 'reuse')} rerun={','.join(p.get_list('rerun_status', [])) or '-'} "
-            f"stop={','.join(p.get_list('stop_status', [])) or '-'} rank={rank[id(n)]} objs={','.join(vms) or '-'}")
-    for i, n in enumerate(nodes):
-        for parent, objs in n.setup_nodes.items():
-            vms = sorted({o.long_suffix.split("_")[-1] for o in objs if o.key != "nets"})
-            lines.append(f"edge {i} {nidx[id(parent)]} {','.join(vms) or '-'}")
+            f"stop={','.join(p.get_list('stop_status', [])) or '-'} rank={rank[id(n)]} objs={','.join(vms) or '-'}"
+            + (f" setless={n.setless_form}" if n.is_flat() and not n.is_shared_root() else ""))
+    if lazy:
+        # the complete (eager) edge set, as the expansion stub will reveal it
+        cdef = {c["name"]: c for c in run.spec["classes"]}
+        for i, n in enumerate(nodes):
+            cname, wid = run.node_key.get(id(n), (None, None))
+            if n is run.root:
+                continue
+            if wid == "*flat*":
+                lines.append(f"edge {i} {nidx[id(run.root)]} -")
+                continue
+            c = cdef[cname]
+            if not c.get("parents"):
+                lines.append(f"edge {i} {nidx[id(run.root)]} {c['root_of'] if c.get('root_of') else c['objs'][0]}")
+            for pname, vm in c.get("parents", []):
+                lines.append(f"edge {i} {nidx[id(run.nodes[(pname, wid)])]} {vm}")
+            if c.get("leaf"):
+                lines.append(f"edge {i} {nidx[id(run.flat[cname])]} -")
+    else:
+        for i, n in enumerate(nodes):
+            for parent, objs in n.setup_nodes.items():
+                vms = sorted({objkey(o) for o in objs if o.key != "nets" and hasattr(o, "long_suffix") and o.long_suffix != "shared"})
+                lines.append(f"edge {i} {nidx[id(parent)]} {','.join(vms) or '-'}")
     lines.append(f"root {nidx[id(run.root)]}")
+    if lazy:
+        for n in run.order:
+            lines.append(f"hidden {nidx[id(n)]}")
     for loc, states in sorted(run.spec.get("pool", {}).items()):
         lines.append(f"pool {loc} " + ",".join(f"{a}:{b}" for a, b in states))
     lines.append("init")
@@ -486,16 +608,9 @@ def project(run, e):
     w, kind = e[0], e[1]
 
     def cname(c):
-        pre = c.startswith("pre:")
-        base = c[4:] if pre else c
-        node = run.nodes[(base, e[4]["node_worker"])] if kind == "start" else None
-        return ("pre:" if pre else "") + str(run.classes[(node or run._last_node[(w, c)]).bridged_form])
+        return c
     if kind == "start":
         c = e[2]
-        base = c[4:] if c.startswith("pre:") else c
-        node = run.nodes[(base, e[4]["node_worker"])]
-        run._last_node = getattr(run, "_last_node", {})
-        run._last_node[(w, c)] = node
         locs = ",".join(f"{vm}={v.replace(' ', '+')}" for vm, v in e[4]["locs"])
         return canon(f"start {w} {cname(c)} {e[3]} locs={locs} unknown={e[4]['unknown']}")
     if kind == "end":
@@ -517,7 +632,7 @@ def blocks(run):
     out, cur, curw = [], None, None
     for e in run.events:
         w, kind = e[0], e[1]
-        if kind == "timeout":
+        if kind in ("timeout", "parse"):
             continue
         if cur is None:
             if kind == "end":
@@ -708,9 +823,9 @@ def mon_lines(run):
 MONITORS = ["overlap", "count", "present", "owner", "states", "cleanup", "result", "uid"]
 
 
-def run_case(spec, driver, monitors=MONITORS, max_virtual=200000):
+def run_case(spec, driver, monitors=MONITORS, max_virtual=200000, run_cls=None):
     """run the real traversal for a spec; returns dict(disagree=..., mon={name: verdict}, stats=...)"""
-    r = Run(spec)
+    r = (run_cls or Run)(spec)
     r.execute(max_virtual=max_virtual)
     res = {"events": len(r.events), "vtime": r.vtime, "verdict": r.verdict}
     lines = list(r.static_lines)
@@ -726,7 +841,7 @@ def run_case(spec, driver, monitors=MONITORS, max_virtual=200000):
     outs = driver("drv_trav", lines)
     res["disagree"] = None
     res["overflow"] = r.overflow
-    for i, (resume, evs) in enumerate([] if r.overflow else bl):
+    for i, (resume, evs) in enumerate(bl):
         got = " | ".join(canon(x) for x in outs[n0 + i].split(" | ") if x)
         want = " | ".join(evs)
         if got != want:
@@ -738,6 +853,11 @@ def run_case(spec, driver, monitors=MONITORS, max_virtual=200000):
         kinds[e[1]] = kinds.get(e[1], 0) + 1
     res["kinds"] = kinds
     res["n_exec"] = kinds.get("start", 0)
-    res["class_names"] = {str(r.classes[n.bridged_form]): key[0] for key, n in r.nodes.items()}
+    res["class_flags"] = {}
+    for l in r.static_lines:
+        if l.startswith("node "):
+            t = dict(x.split("=", 1) for x in l.split(" ")[2:] if "=" in x)
+            res["class_flags"].setdefault(t["cls"], t.get("flags", "-"))
+    res["class_names"] = {str(r.classes[n.bridged_form]): key[0] for key, n in r.nodes.items() if n.bridged_form in r.classes}
     res["statuses"] = sorted({str(e[4]["status"]) for e in r.events if e[1] == "end"})
     return res
